@@ -6,6 +6,7 @@ import "verifharness/ev"
 // whose signature is INCONCLUSIVE (a wait on the code under test exceeded the watchdog:
 // decided once, at the end of the run, by ev.Finish) or HARNESS are not violations.
 func Report(run *ev.Run, caseID string, trace []string, problems []string) {
+	problems = Quarantine(problems)
 	for _, p := range problems {
 		sig, txt := SplitSig(p)
 		switch sig {
@@ -22,4 +23,21 @@ func Report(run *ev.Run, caseID string, trace []string, problems []string) {
 		}
 		run.Violation(caseID, sig, txt, map[string]any{"history": append([]string{}, t...)})
 	}
+}
+
+// Quarantine: a case in which a wait exceeded the watchdog has no verdict at all. Whatever
+// else the case reports (the model has applied operations the stalled server answers
+// later, or never) is a consequence of the stall, not an observation about the property:
+// only the inconclusive entries are kept.
+func Quarantine(problems []string) []string {
+	var inc []string
+	for _, p := range problems {
+		if sig, _ := SplitSig(p); sig == "INCONCLUSIVE" {
+			inc = append(inc, p)
+		}
+	}
+	if len(inc) > 0 {
+		return inc
+	}
+	return problems
 }
